@@ -46,7 +46,8 @@ CONSTANTS
   Weak_NoRescale,             \* RescalePriorities never divides
   Weak_NoCentre,              \* shiftByAvgProposerPriority does nothing
   Weak_TieHighAddr,           \* priority ties go to the HIGHER address
-  Weak_FloorDiv               \* rescaling rounds toward -infinity instead of toward zero
+  Weak_FloorDiv,              \* rescaling rounds toward -infinity instead of toward zero
+  Weak_RoundSkipSingleIncrement \* a node that skips k rounds rotates with ONE IncrementProposerPriority(k)
 
 IntMin == -IntMax - 1
 NoVal  == [a |-> 0, p |-> 0, pr |-> 0]
@@ -175,6 +176,14 @@ GetProposer(set) ==
 CopySet(set) == [set EXCEPT !.alias = FALSE]
 \* ToProto / ValidatorSetFromProto round trip (state store): values only
 ProtoRoundTrip(set) == [set EXCEPT !.alias = FALSE]
+
+\* consensus/state.go enterNewRound(height, round), round > cs.Round: the validators the node
+\* uses from then on.  Every node must elect the same proposer for (height, round) whether it
+\* walked the rounds one by one or jumped: one IncrementProposerPriority(1) per round.
+\* (The code as found before the repair made ONE call with the round difference.)
+RoundSkipRotate(set, k) ==
+  IF Weak_RoundSkipSingleIncrement THEN IncrementProposerPriority(CopySet(set), k)
+  ELSE IncrementEach(CopySet(set), k)
 
 \* ------------------------------------------------------------------ update: code transcription
 \* processChanges: sort by address, scan; first error wins
@@ -413,6 +422,10 @@ NoClip(vals) == \A i \in DOMAIN vals : vals[i].pr > IntMin /\ vals[i].pr < IntMa
 \* the observable content of a set (what LookupExact compares): validators in order,
 \* proposer by value
 SetView(set) == [vals |-> set.vals, prop |-> set.prop]
+\* ProposerDeterministic: the set after skipping k rounds is the set after walking k rounds
+ProposerDeterministicAt(set, k) ==
+  SetView(RoundSkipRotate(set, k)) = SetView(IncrementEach(CopySet(set), k))
+
 
 \* Fair: in `props` (addresses of consecutive proposers of a FIXED set `vals`, first
 \* increment taken from the freshly created set) every window of total-power many
